@@ -156,8 +156,5 @@ def gen_aggregator(repo, report):
 def generate(repo, files, report):
     files["Gen_detmetrics.v"] = gen_detmetrics(repo, report)
     files["Gen_aggregator.v"] = gen_aggregator(repo, report)
-    try:
-        import targets_prob
-        targets_prob.generate(repo, files, report)
-    except ImportError:
-        pass
+    import targets_prob
+    targets_prob.generate(repo, files, report)
